@@ -118,8 +118,7 @@ func Harness_C03_trace_shape() {
 func Harness_C03_visit_main() {
 	x, y := verifPick("x", 0, 1), verifPick("y", 0, 1)
 	a0, a1 := verifPick("arg0", 0, 2), verifPick("arg1", 0, 2)
-	// the same SSA value passed twice to one call is the region of KF-C03-duplicate-argument (see DESIGN §5 D9)
-	dup := a0 == a1
+	// a0 == a1 passes the same SSA value twice to the sink (defect D9, repaired by a fix: commit)
 	w := df.VerifNewMainWorld(x, y, a0, a1)
 	verifAssert("summary-built", w.Err == nil && w.Sink != nil && w.SrcA != nil && w.SrcB != nil)
 	if w.Sink == nil || w.SrcA == nil || w.SrcB == nil {
@@ -146,7 +145,7 @@ func Harness_C03_visit_main() {
 					}
 				}
 			}
-			verifAssertKnown("every-origin-of-the-argument-is-in-some-trace", "KF-C03-duplicate-argument", dup, found)
+			verifAssert("every-origin-of-the-argument-is-in-some-trace", found)
 		}
 		for _, tr := range traces {
 			verifAssert("trace-ends-at-the-backtrace-point-argument", len(tr) > 0 && tr[len(tr)-1].GraphNode == df.GraphNode(arg))
